@@ -38,9 +38,10 @@ def run(ctx):
                    "same oracle per client plus no callback after remove()"
                    % (("/".join(str(t) for t, _ in cfgs), "/".join(str(e) for _, e in cfgs)) + (mt, mrb, meb)),
            "executions_with_two_backlogs": int(c.get("executions_with_two_backlogs", 0)), "polls_with_two_ready_clients": int(c.get("polls_with_two_ready_clients", 0)),
+           "executions_with_colliding_client_addresses": int(c.get("colliding_client_addresses", 0)),
            "explanation": "stateless exhaustive DFS over choice sequences: states = complete executions, transitions = application actions and intercepted send calls on the real implementation",
            "exhaustive": not c.get("deadline_hit")}
-    return ctx.finish("model_checking", cov, ["real kernel socket-pair and epoll semantics; no error injection in this check (would-block and partial sends only)"], tags=["C13"])
+    return ctx.finish("model_checking", cov, ["real kernel socket-pair and epoll semantics; the one-client harness injects would-block and partial sends only; the two-client harness also a connection reset"], tags=["C13"])
 
 def replay(ctx, rp):
     import subprocess
